@@ -17,7 +17,8 @@ import tempfile
 from harness import core, inject, world as W
 
 RULE = ("start/stop histories over small trees (0-3 product files) x key types x both formats x key-argument forms; the stop "
-        "phase killed after every audited operation and at 1/4, 1/2, 3/4 and all-but-one byte of the final write; preliminary "
+        "phase killed after every audited operation and at 1/4, 1/2, 3/4 and all-but-one byte of the final write, and failed (ENOSPC-like "
+        "OSError from write() after a partial write, error on close()) at the same place; preliminary "
         "record missing / edited / re-signed by another key / left by another key; interleaved start / stop / run of two step "
         "names and keys in one directory. Non-trivial: every crash run and every tampered-preliminary run; distinct by "
         "(history, crash point).")
@@ -143,7 +144,8 @@ def one_history(rng, res):
                                                                 "state": dir_state(root, k, prods)})
         # (ii) crash at every audited operation (= before it is performed) and inside the write
         # offsets inside the write are relative to the bytes actually written (signatures vary in length)
-        points = [("event", e) for e in range(len(trace) + 1)] + [("write", f) for f in (0.0, 0.25, 0.5, 0.75, -1)]
+        points = [("event", e) for e in range(len(trace) + 1)] + [("write", f) for f in (0.0, 0.25, 0.5, 0.75, -1)] + \
+                 [("write_fault", f) for f in (0.0, 0.5, -1)] + [("close_fault", 1.0)]
         for kind, arg in points:
             # reset the directory to the state before stop
             for f in os.listdir(root):
@@ -169,8 +171,20 @@ def one_history(rng, res):
                                 cut = len(data) - 1 if arg == -1 else int(len(data) * arg)
                                 real_write(data[:cut])
                                 fobj.flush()
-                                os._exit(77)  # pylint: disable=protected-access
-                            fobj.write = write
+                                if kind == "write":
+                                    os._exit(77)  # pylint: disable=protected-access
+                                if kind == "write_fault":
+                                    raise OSError(28, "No space left on device (injected)")
+                                return cut
+                            if kind == "close_fault":
+                                real_close = fobj.close
+
+                                def close():
+                                    real_close()
+                                    raise OSError(5, "Input/output error on close (injected)")
+                                fobj.close = close
+                            else:
+                                fobj.write = write
                         return fobj
                     builtins.open = fake_open
                     stop(k, prods)
@@ -184,15 +198,18 @@ def one_history(rng, res):
                 kmodel = len([o for o in ops_done])
                 if "createFinal" in ops_done:
                     kmodel += 1              # the write completed before the next audited event
+            elif kind == "close_fault":
+                kmodel = model_ops.index("createFinal") + 2   # everything was written, the close reported an error
             else:
                 kmodel = model_ops.index("createFinal") + 1   # inside the write
             ms = m["states"][min(kmodel, len(m["states"]) - 1)]
             mstate = (ms["prelim"], ms["final"])
-            agreed = state == mstate or (status != 77)
+            died = status == 77 or kind in ("write_fault", "close_fault")
+            agreed = state == mstate or not died
             res.case({"desc": desc, "crash": [kind, arg], "exit": status, "state": state, "model": mstate}, True, agreed, sample_cap=1)
             res.count("crash_" + kind)
             res.count("state_%s_%s" % state)
-            if status == 77 and state != mstate:
+            if died and state != mstate:
                 res.fail("disagree", {"op": "stop_crash", "desc": desc, "crash": [kind, arg]},
                          {"op": "stop_crash", "impl": state, "model": mstate})
             if state[0] != "complete" and state[1] != "complete":
